@@ -10,7 +10,7 @@ import time
 from . import core, jobs as jobsmod
 from .meta import PROPS, COMMON_ASSUMPTIONS, TRUSTED_BASE
 
-MEM_BUDGET_GB = int(os.environ.get("VERIF_MEM_GB", "52"))
+MEM_BUDGET_GB = int(os.environ.get("VERIF_MEM_GB", "56"))
 
 
 def jobs_for(pid, tier):
@@ -84,14 +84,14 @@ def run_property(pid, tier, use_cache=True, njobs=16, only=None, verbose=False):
     results = {}
 
     def work(j):
-        gate.acquire(j.mem_gb)
+        gate.acquire(j.mem_gate)
         try:
             if j.engine == "E4":
                 from . import static
                 return static.run_static(j)
             return core.run_job(j, use_cache=use_cache)
         finally:
-            gate.release(j.mem_gb)
+            gate.release(j.mem_gate)
 
     # longest first
     order = sorted(js, key=lambda j: -j.timeout)
